@@ -127,9 +127,10 @@ def verdict_direct(desc):
         _blocks_close(out, "ref_stiffness/disp", u1, us, 2 * ftol, scale_from=uf, lchar=lc, floor=fl1)
     # 2 equilibrium invariant with the reference's K and the displacements under test; clamp
     if free_loaded:
-        # (component-wise backward error: 1e-7, or 10 eps cond when bending stiffness EI/L^2 is ten and more decades below
-        # the axial stiffness EA - tiny spars - and elimination mixes the two scales)
-        out.le("equilibrium", RF.equilibrium_backward_error(nodes, A, Iy, Iz, J, E, G, f1, root, u1), max(TOL, 10.0 * EPS * kappa))
+        # (component-wise backward error: 1e-7, or eps x condition number - of the diagonally scaled matrix x 10, of the matrix
+        # as it stands x 1 - when the bending stiffness EI/L is ten and more decades below the axial stiffness EA/L (tiny
+        # spars) and an elimination without equilibration mixes the two scales; observed 1.07e-7 at cond 1e10)
+        out.le("equilibrium", RF.equilibrium_backward_error(nodes, A, Iy, Iz, J, E, G, f1, root, u1), max(TOL, 10.0 * EPS * kappa, EPS * RF.unscaled_condition(nodes, A, Iy, Iz, J, E, G, root)))
     umax = float(np.max(np.abs(uf))) or 1.0
     out.le("root_clamped", float(np.max(np.abs(u1[root]))), 1e-12 * umax)
     # 3 linearity, reciprocity
@@ -414,7 +415,8 @@ def verdict_alone(desc):
     if free_loaded:
         _blocks_close(out, "alone/ref_force_method/disp", g["disp"], uf, _ftol(kappa), lchar=_extent(nodes),
                       floor=RF.roundoff_floor(nodes, g["A"], g["Iy"], g["Iz"], g["J"], E, G, f, root))
-        out.le("alone/equilibrium", RF.equilibrium_backward_error(nodes, g["A"], g["Iy"], g["Iz"], g["J"], E, G, f, root, g["disp"]), TOL)
+        out.le("alone/equilibrium", RF.equilibrium_backward_error(nodes, g["A"], g["Iy"], g["Iz"], g["J"], E, G, f, root, g["disp"]),
+               max(TOL, 10.0 * EPS * kappa, EPS * RF.unscaled_condition(nodes, g["A"], g["Iy"], g["Iz"], g["J"], E, G, root)))
     out.le("alone/root_clamped", float(np.max(np.abs(g["disp"][root]))), 1e-12 * (float(np.max(np.abs(uf))) or 1.0))
     if desc["model"] == "tube":
         # documented: FEM nodes at fem_origin * chord
